@@ -33,7 +33,7 @@ pub fn run(args: &Args) -> Report {
         "C11",
         &args.tier,
         args.seed,
-        "complete product store capability (full, non-discoverable only, forced) x residentKey (absent, discouraged, preferred, required) x requireResidentKey x credProps (absent, false, true) x signature counters on/off x PRF requested-and-configured or not at client level x user id length (1, 8, 64 bytes) at client level and rk x capability x store form (the store itself, Arc<Mutex>, Arc<RwLock>, Mutex, RwLock around it) at CTAP level, each followed by an assertion with the new credential; plus 108 cells of two registrations on one authenticator whose store changes capability in between, under every verification-capability report; distinct by the tuple; every tuple is non-trivial (finite product)",
+        "complete product store capability (full, non-discoverable only, forced) x residentKey (absent, discouraged, preferred, required) x requireResidentKey x credProps (absent, false, true) x signature counters on/off x PRF requested-and-configured or not at client level x user id length (1, 8, 64 bytes) at client level and rk x capability x store form (the store itself, Arc<Mutex>, Arc<RwLock>, Mutex, RwLock around it) at CTAP level, each followed by an assertion with the new credential; plus 108 cells of two registrations on one authenticator whose store changes capability in between, under every verification-capability report, each followed by assertions with every credential then held; registration requests decoded from JSON on four routes; distinct by the tuple; every tuple is non-trivial (finite product)",
     );
     rep.exhaustive = true;
     let only = replay_index(args);
@@ -45,7 +45,12 @@ pub fn run(args: &Args) -> Report {
             for require in [false, true] {
                 for cred_props in [None, Some(false), Some(true)] {
                   for (counters, prf) in [(false, false), (true, false), (false, true), (true, true)] {
-                   for (uid, selection_absent, unknown_rk_text) in [(0usize, false, false), (1, false, false), (2, false, false), (0, true, false), (0, false, true)] {
+                   for (uid, selection_absent, unknown_rk_text, json_route) in [(0usize, false, false, 0u8), (1, false, false, 0), (2, false, false, 0), (0, true, false, 0), (0, false, true, 0), (0, false, false, 1), (0, false, false, 2), (0, false, false, 3), (0, false, false, 4)] {
+                    // the request arrives as JSON and is decoded on one of the routes serde_json offers (from a
+                    // string, from a tree, from a reader, from a string whose residentKey text carries an escape)
+                    if json_route > 0 && (rk_req.is_none() || counters || prf) {
+                        continue;
+                    }
                     // the whole authenticatorSelection member absent: only meaningful where it says nothing
                     if selection_absent && (rk_req.is_some() || require) {
                         continue;
@@ -65,7 +70,7 @@ pub fn run(args: &Args) -> Report {
                         continue;
                     }
                     rep.eval();
-                    let case = json!({"index": index, "level": "client", "capability": format!("{disc:?}"), "residentKey": rk_req.map(|r| format!("{r:?}")), "requireResidentKey": require, "credProps": cred_props, "signature_counters": counters, "prf_requested_and_configured": prf, "user_id_len": user_id.len(), "authenticatorSelection_absent": selection_absent, "residentKey_is_an_unknown_string_in_json": unknown_rk_text});
+                    let case = json!({"index": index, "level": "client", "capability": format!("{disc:?}"), "residentKey": rk_req.map(|r| format!("{r:?}")), "requireResidentKey": require, "credProps": cred_props, "signature_counters": counters, "prf_requested_and_configured": prf, "user_id_len": user_id.len(), "authenticatorSelection_absent": selection_absent, "residentKey_is_an_unknown_string_in_json": unknown_rk_text, "decoded_from_json": ([serde_json::Value::Null, json!("from_str"), json!("from_value"), json!("from_reader"), json!("from_str, escaped residentKey text")][usize::from(json_route)])});
                     rep.nontrivial(fnv_str(&case.to_string()));
                     let want_rk = map_rk(rk_req, require, supports_rk);
                     let refused = want_rk && !supports_rk;
@@ -83,21 +88,39 @@ pub fn run(args: &Args) -> Report {
                         if selection_absent {
                             opts.public_key.authenticator_selection = None;
                         }
+                        fn drop_nulls(v: &mut serde_json::Value) {
+                            match v {
+                                serde_json::Value::Object(m) => {
+                                    m.retain(|_, x| !x.is_null());
+                                    m.values_mut().for_each(drop_nulls);
+                                }
+                                serde_json::Value::Array(a) => a.iter_mut().for_each(drop_nulls),
+                                _ => {}
+                            }
+                        }
                         if unknown_rk_text {
                             let mut v = serde_json::to_value(&opts).expect("options serialise");
                             v["publicKey"]["authenticatorSelection"]["residentKey"] = json!("a-value-from-the-future");
-                            fn drop_nulls(v: &mut serde_json::Value) {
-                                match v {
-                                    serde_json::Value::Object(m) => {
-                                        m.retain(|_, x| !x.is_null());
-                                        m.values_mut().for_each(drop_nulls);
-                                    }
-                                    serde_json::Value::Array(a) => a.iter_mut().for_each(drop_nulls),
-                                    _ => {}
-                                }
-                            }
                             drop_nulls(&mut v);
                             opts = serde_json::from_value(v).expect("options with an unknown residentKey string parse");
+                        }
+                        if json_route > 0 {
+                            let mut v = serde_json::to_value(&opts).expect("options serialise");
+                            drop_nulls(&mut v);
+                            let text = v.to_string();
+                            opts = match json_route {
+                                1 => serde_json::from_str(&text).expect("options parse from a string"),
+                                2 => serde_json::from_value(v).expect("options parse from a tree"),
+                                3 => serde_json::from_reader(text.as_bytes()).expect("options parse from a reader"),
+                                _ => {
+                                    // the second character of the residentKey text written as an escape
+                                    let word = v["publicKey"]["authenticatorSelection"]["residentKey"].as_str().expect("residentKey is a string").to_string();
+                                    let esc = format!("{}\\u{:04x}{}", &word[..1], word.as_bytes()[1], &word[2..]);
+                                    let t2 = text.replacen(&format!("\"residentKey\":\"{word}\""), &format!("\"residentKey\":\"{esc}\""), 1);
+                                    assert_ne!(t2, text, "the residentKey text was not found in the serialised options");
+                                    serde_json::from_str(&t2).expect("options with an escaped residentKey text parse")
+                                }
+                            };
                         }
                         if cred_props.is_some() || prf {
                             opts.public_key.extensions = Some(AuthenticationExtensionsClientInputs {
@@ -322,9 +345,17 @@ pub fn run(args: &Args) -> Report {
                         let n_before = rig.store.snapshot().len();
                         let second = block_on(auth.make_credential(mc_request("example.com", b"second", &[2u8; 32], vec![pk_param(coset::iana::Algorithm::ES256)], None, None, rk2, true, false))).map(|_| ()).map_err(|e| status_byte_ref(&e));
                         let snap = rig.store.snapshot();
-                        (info1, first, info2, second, n_before, snap)
+                        // every credential now held asserts under the store's present capability
+                        let asserts: Vec<(Option<Vec<u8>>, Result<Option<Vec<u8>>, u8>)> = snap
+                            .iter()
+                            .map(|c| {
+                                let r = block_on(auth.get_assertion(ga_request("example.com", &[3u8; 32], Some(vec![descriptor(&c.id)]), None, true, false)));
+                                (c.user_handle.clone(), r.map(|r| r.user.map(|u| u.id.to_vec())).map_err(|e| status_byte_ref(&e)))
+                            })
+                            .collect();
+                        (info1, first, info2, second, n_before, snap, asserts)
                     });
-                    let (info1, first, info2, second, n_before, snap) = match r {
+                    let (info1, first, info2, second, n_before, snap, asserts) = match r {
                         Ok(v) => v,
                         Err((sig, d)) => {
                             rep.violate(&format!("ctap: {sig}"), d, case);
@@ -340,6 +371,17 @@ pub fn run(args: &Args) -> Report {
                         rep.violate("ctap: first registration not refused exactly when rk is asked of a non-discoverable-only store", format!("{first:?}"), case.clone());
                     }
                     rep.count("capability_change_cells");
+                    for (stored, got) in &asserts {
+                        match got {
+                            Ok(uh) => {
+                                rep.count("assertions_after_capability_change_checked");
+                                if uh != stored {
+                                    rep.violate("ctap: assertion returns a user handle differently from what the credential stores", format!("the credential was created under {d1:?} or {d2:?} and is used under {d2:?}: stored {:?}, returned {:?}", stored.as_ref().map(|h| h.len()), uh.as_ref().map(|h| h.len())), case.clone());
+                                }
+                            }
+                            Err(b) => rep.violate("ctap: follow-up assertion failed", format!("{b:#x} after the capability change"), case.clone()),
+                        }
+                    }
                     match second {
                         Err(b) => {
                             if !(rk2 && !sup2) {
